@@ -190,3 +190,33 @@ Theorem C10_inactive_noop : forall c s k,
   tb_step c s k = (s, mk_ret None 0 false).
 Proof. exact inactive_noop. Qed.
 Print Assumptions C10_inactive_noop.
+
+(* no buffer ever holds more than its own Limit: any state within it, any calls, any ctl limit *)
+Theorem C10_buffer_within_limit : forall c ks s,
+  bb_len (s_buf s) <= bo_limit (c_opt c) -> bb_len (s_buf (tb_final c s ks)) <= bo_limit (c_opt c).
+Proof. exact run_len_le. Qed.
+Print Assumptions C10_buffer_within_limit.
+
+(* the response buffer (created with MemoryLimit = Limit = SecResponseBodyLimit, [waf_buf_opts]) never
+   spills to disk, whatever the calls, the ctl changes and the WAF's SecRequestBodyInMemoryLimit are *)
+Theorem C10_response_never_spills : forall w c ph ks,
+  c_opt c = waf_buf_opts w Resp -> 0 <= w_resp_limit w ->
+  bb_spilled (s_buf (tb_final c (tb_init c ph) ks)) = false.
+Proof. exact response_never_spills. Qed.
+Print Assumptions C10_response_never_spills.
+
+(* ... and its options (hence every response-side observable) do not depend on that setting *)
+Theorem C10_response_ignores_request_inmem : forall rl m1 m2 pl,
+  waf_buf_opts {| w_req_limit := rl; w_req_inmem := m1; w_resp_limit := pl |} Resp
+  = waf_buf_opts {| w_req_limit := rl; w_req_inmem := m2; w_resp_limit := pl |} Resp.
+Proof. exact response_opts_ignore_request_inmem. Qed.
+Print Assumptions C10_response_ignores_request_inmem.
+
+(* a WAF accepted by Validate gives the request buffer options within wf_cfg (the hypothesis of the run
+   theorems above) *)
+Theorem C10_request_opts_wf : forall w c,
+  c_opt c = waf_buf_opts w Req -> 0 < w_req_limit w <= gib ->
+  match w_req_inmem w with Some m => 0 < m <= w_req_limit w | None => True end ->
+  wf_cfg c.
+Proof. exact request_opts_wf. Qed.
+Print Assumptions C10_request_opts_wf.
